@@ -169,7 +169,9 @@ impl Bytes {
     }
 
     pub fn to_formal_string(&self) -> String {
-        pybytes_repr(&self._b, true, false)
+        // Backslashes must be escaped: the reader (consume_quoted) treats a
+        // backslash as escaping the next character.
+        pybytes_repr(&self._b, true, true)
     }
 
     pub fn pybytes(&self) -> String {
